@@ -8,6 +8,7 @@ import (
 	"time"
 
 	"github.com/oauth2-proxy/oauth2-proxy/v7/pkg/apis/options"
+	"github.com/oauth2-proxy/oauth2-proxy/v7/pkg/apis/sessions"
 	"github.com/oauth2-proxy/oauth2-proxy/v7/pkg/encryption"
 )
 
@@ -254,3 +255,60 @@ func (w *vRW) Write(b []byte) (int, error) { return len(b), nil }
 func (w *vRW) WriteHeader(code int)        { w.status = code }
 
 var _ = fmt.Sprintf
+
+//assume: C10.roundtrip: AES-CFB ideal (Decrypt inverts Encrypt; other input decrypts to arbitrary bytes), HMAC ideal/unforgeable, base64/msgpack/lz4 uninterpreted inverse pairs; 'now' is one symbolic instant; the session fits one cookie; at most 2 groups
+
+// (d) cookie store end to end with the real Save/Load: what was saved is what loads, field by
+// field; it loads only inside the lifetime counted from the session's creation time; the cookie
+// reveals no field in clear
+// verif: unwind=8 strlen=12 ideal also=C02,C09 steps=3000000
+func vh_C10_cookie_roundtrip() {
+	cipher, err := encryption.NewCFBCipher(encryption.SecretBytes(vSecret))
+	verifAssume(err == nil)
+	store := vStoreFor("_oauth2_proxy")
+	store.CookieCipher = cipher
+	store.Minimal = ndBool("minimal")
+	now := time.Now()
+	age := ndInt("age-seconds")
+	verifAssume(age >= -100000 && age <= 10000000)
+	created := time.Unix(now.Unix()-int64(age), 0)
+	s := &sessions.SessionState{AccessToken: ndString("at"), IDToken: ndString("it"), RefreshToken: ndString("rt"),
+		Email: ndString("email"), User: ndString("user"), PreferredUsername: ndString("pu"), CreatedAt: &created}
+	if ndBool("has-group") {
+		s.Groups = []string{ndString("group")}
+	}
+	rw := &vRW{}
+	verifIssueBegin()
+	err = store.Save(rw, vReq("app.example"), s)
+	verifIssueEnd()
+	verifAssert("C10.roundtrip.save-ok", err == nil)
+	set := verifSetCookies(rw.Header())
+	verifAssert("C10.roundtrip.one-cookie", len(set) == 1)
+	if err != nil || len(set) != 1 {
+		return
+	}
+	for _, secret := range []string{s.AccessToken, s.IDToken, s.RefreshToken, s.Email, s.User, s.PreferredUsername} {
+		verifOpaque("C02.cookie.opaque-value", set[0].Value, secret)
+	}
+	req := vReq("app.example")
+	req.AddCookie(&http.Cookie{Name: set[0].Name, Value: set[0].Value})
+	got, lerr := store.Load(req)
+	expireSec := int(store.Cookie.Expire / time.Second)
+	if lerr == nil {
+		verifReach("loaded")
+		verifAssert("C09.cookie.not-past-lifetime-from-creation", age < expireSec+1 && age > -301)
+		verifAssert("C10.roundtrip.identity-intact", got.Email == s.Email && got.User == s.User && got.PreferredUsername == s.PreferredUsername && len(got.Groups) == len(s.Groups))
+		if len(s.Groups) == 1 && len(got.Groups) == 1 {
+			verifAssert("C10.roundtrip.groups-intact", got.Groups[0] == s.Groups[0])
+		}
+		verifAssert("C10.roundtrip.created-at-intact", got.CreatedAt != nil && got.CreatedAt.Unix() == created.Unix())
+		if store.Minimal {
+			verifAssert("C10.roundtrip.minimal-drops-tokens", got.AccessToken == "" && got.IDToken == "" && got.RefreshToken == "")
+		} else {
+			verifAssert("C10.roundtrip.tokens-intact", got.AccessToken == s.AccessToken && got.IDToken == s.IDToken && got.RefreshToken == s.RefreshToken)
+		}
+	} else {
+		verifReach("rejected")
+		verifAssert("C09.cookie.rejected-only-outside-lifetime", age >= expireSec || age <= -300)
+	}
+}
